@@ -51,7 +51,8 @@ def _create_override_tuple(key, has_value = True):
 def _override_dict_key(over_tuple):
   # Option keys match irrespective of embedded whitespace, two spellings of one key are the same item.
   key = over_tuple.key.strip().replace(' ', '').replace('\t', '')
-  return (over_tuple.section, key)
+  # ... and blanks around the name of the section are not part of it ('Pair :A-B' is 'Pair:A-B')
+  return (over_tuple.section.strip(), key)
 
 def _make_config_parser(cfg_file, overrides, additional, remove, species, exclude_flag):
   override_dict = collections.OrderedDict()
